@@ -45,8 +45,13 @@ class QuaIO(GameIO):
             text = text.replace("\r\n", "\n")
         return QuaMap.read(text if len(data) % 2 else text.split("\n"))
 
-    def write_api(self, obj, layout=None) -> bytes:
-        return obj.write().encode("utf8")
+    def write_api(self, obj, layout=None):
+        return obj.write()
+
+    def api_bytes(self, raw):
+        if not isinstance(raw, str):
+            return None, f"write() returned a {type(raw).__name__}, not a text"
+        return raw.encode("utf8"), ""
 
     def write(self, obj, path, layout=None):
         return obj.write_file(path)
